@@ -19,7 +19,7 @@ import warnings
 
 import numpy as np
 
-from .. import core, embed, fld as fldmod
+from .. import core, embed, lat, fld as fldmod
 from .. import c09_ovf as ovf
 from ..core import Part
 
@@ -122,6 +122,7 @@ def build_field(df, f, emb, as_int=False):
     region = df.Region(p1=lo, p2=hi, units=[f["munit"]] * 3)
     subs = {s["name"]: df.Region(p1=[conv(q) for q in s["lo"]], p2=[conv(q) for q in s["hi"]]) for s in f["subs"]}
     mesh = df.Mesh(region=region, n=tuple(int(v) for v in f["n"]), subregions=subs)
+    mesh = lat.arrive_in_place(df, mesh, emb, sum(int(v) for v in f["n"]) * 5 + int(f["nv"]) + len(f["subs"]))
     arr = fldmod.unflatten([[POOL[i] for i in cell] for cell in f["vals"]], f["n"], dtype=np.float64)
     return df.Field(mesh, nvdim=int(f["nv"]), value=arr, vdims=list(f["labels"]) if f["nv"] > 1 else None,
                     unit=None if f["unit"] == NONE else f["unit"])
@@ -236,6 +237,9 @@ def write_own(df, f, emb, path, rep, ext, as_int=False, over=False):
         if over:  # another field (same mesh, one subregion, other values) was written to this path before
             g = dict(f, subs=[{"name": "old", "lo": list(f["lo"]), "hi": coords_of(f)[3:]}], vals=[[1] * f["nv"]] * len(f["vals"]), unit="old")
             decoy = build_field(df, g, emb, as_int)
+    except (NameError, ImportError, AttributeError, AssertionError) as ex:
+        # not a refusal of the library: a fault of the harness itself must not be counted as "skipped"
+        raise core._tlc.MachineryError(f"build_field failed inside the harness: {type(ex).__name__}: {ex}")
     except Exception as ex:
         raise Unbuildable(f"{type(ex).__name__}: {ex}")
     if over:
